@@ -50,6 +50,11 @@ def cases(draw):
         steps.insert(idx + 1, ["cost_volume_confidence.ib", {"confidence_method": "interval_bounds"}])
         steps.insert(idx + 3, ["filter.mfi", {"filter_method": "median_for_intervals", "interval_indicator": "ib",
                                                "regularization": draw(st.booleans()), "ambiguity_indicator": "amb"}])
+        if draw(st.booleans()):
+            # a second interval filter, right after the first one or as last step: regularisation may flag a pixel twice
+            again = ["filter.mfi2", {"filter_method": "median_for_intervals", "interval_indicator": "ib",
+                                    "regularization": draw(st.integers(0, 3)) > 0, "ambiguity_indicator": "amb"}]
+            steps.insert(idx + 4 if draw(st.booleans()) else len(steps), again)
     lim = max(0, W - w)
     a = draw(st.integers(-min(4, lim), min(3, lim)))
     b = min(min(4, lim), a + draw(st.integers(0, 4)))
